@@ -16,7 +16,7 @@ import (
 
 type c03Route struct{ host, path string }
 
-var c03Hosts = []string{"", "foo.com", "a.foo.com", "*.foo.com", "*.a.foo.com", "*.com", "foo.com:8080", "foo.com:80", "foo.com:443"}
+var c03Hosts = []string{"", "foo.com", "a.foo.com", "*.foo.com", "*foo.com", "*.a.foo.com", "*.com", "foo.com:8080", "foo.com:80", "foo.com:443"}
 var c03Paths = []string{"/", "/a", "/a/b", "/A", "/ä", "/A/b"}
 var c03GlobPaths = []string{"/a/*", "/a*"}
 
